@@ -95,6 +95,7 @@ pub enum Obj {
     Cell(loom::cell::UnsafeCell<usize>),
     Arc(Slot<Vec<Option<loom::sync::Arc<Payload>>>>),
     Track(Slot<Option<loom::alloc::Track<()>>>),
+    Waker(loom::future::AtomicWaker),
 }
 
 pub struct Payload(pub usize);
@@ -156,6 +157,7 @@ pub fn build_table(p: &Prog) -> &'static Table {
                 Obj::Arc(Slot::new(v))
             }
             Decl::Track => Obj::Track(Slot::new(Some(loom::alloc::Track::new(())))),
+            Decl::Waker => Obj::Waker(loom::future::AtomicWaker::new()),
             Decl::Tls | Decl::Lazy => bad("tls/lazy are not declared objects"),
         });
     }
@@ -584,6 +586,43 @@ pub fn run_body(p: &'static Prog, t: &'static Table, b: usize) {
                     res(if had { "-".into() } else { "x".into() });
                 }
                 _ => bad("not a track"),
+            },
+            Op::BlockOn(a, v, w) => {
+                let (a, v, w) = (*a, *v, *w);
+                let aw = match &t.objs[w] {
+                    Obj::Waker(x) => x,
+                    _ => bad("not an atomic waker"),
+                };
+                let at = t.atomic(a);
+                loom::future::block_on(std::future::poll_fn(|cx| {
+                    out(format!("P {} {}", b, pc));
+                    if at.load(Ordering::Acquire) == v {
+                        return std::task::Poll::Ready(());
+                    }
+                    aw.register_by_ref(cx.waker());
+                    if at.load(Ordering::Acquire) == v {
+                        std::task::Poll::Ready(())
+                    } else {
+                        std::task::Poll::Pending
+                    }
+                }));
+                res("-".into());
+            }
+            Op::Wake(w) => match &t.objs[*w] {
+                Obj::Waker(x) => {
+                    x.wake();
+                    res("-".into());
+                }
+                _ => bad("not an atomic waker"),
+            },
+            Op::TakeWaker(w) => match &t.objs[*w] {
+                Obj::Waker(x) => {
+                    let wk = x.take_waker();
+                    let had = wk.is_some();
+                    drop(wk);
+                    res((had as u8).to_string());
+                }
+                _ => bad("not an atomic waker"),
             },
             Op::TlsWith(k) => {
                 let r = match k {
